@@ -94,24 +94,11 @@ fn one(lm: &LinearModel, lms: &str, base: &Outcome, gap: (Option<f64>, &str), li
     out.push(c);
 }
 
-/// Which labelling does the code under test have?  Probe: the seeded knapsack under a 0 ns limit.  The current code
-/// answers `Ok` + `Optimal` (status ignored; model `wrapMilp`); with the repair of `fixes/C15-milp-status.diff` it
-/// answers `Err(LimitReached)` or `Ok` + `Feasible` (model `wrapMilpFixed`).  Any third behaviour matches neither model
-/// and shows up as a correspondence mismatch.
-fn wrapper_reads_status() -> bool {
-    let o = child::solve(SolverKind::Milp, &seeded_knapsack(), &Opts::default().limit_ns(0), TIMEOUT);
-    match o {
-        Outcome::Solution(s) => s.status != "optimal",
-        Outcome::Err { variant, .. } => variant == "LimitReached",
-        _ => false,
-    }
-}
-
 pub fn generate(seed: u64, n: usize, _thorough: bool, _corpus: Option<&str>) -> Vec<Case> {
     let mut r = Rng::new(seed);
     let mut cases = vec![];
     let gaps = gaps();
-    let fixed = wrapper_reads_status();
+    let fixed = gen_lp::detect_variants().milp_reads_status;
     let mut models: Vec<(LinearModel, &str)> = vec![(seeded_knapsack(), "seeded-knapsack")];
     for i in 0..n {
         models.push(match i % 4 {
